@@ -146,7 +146,7 @@ class Values:
         if isinstance(e, ast.Call):
             t = self.an.spliced_at.get(id(e))
             if t is not None:
-                rets = [r.value for r in _own_nodes(t.node) if isinstance(r, ast.Return) and r.value is not None]
+                rets = self._live_returns(e, t)
                 sub = bind_args(e, t, f, env)
                 leaves = [self.trace(t, sub, r, _depth + 1) for r in rets]
                 if leaves and all(x[2] is leaves[0][2] for x in leaves):
@@ -272,7 +272,7 @@ class Values:
         if isinstance(e, ast.Call):
             t = self.an.spliced_at.get(id(e))
             if t is not None:
-                rets = [r.value for r in _own_nodes(t.node) if isinstance(r, ast.Return) and r.value is not None]
+                rets = self._live_returns(e, t)
                 sub = bind_args(e, t, f, env)
                 out = []
                 for r in rets:
@@ -280,6 +280,17 @@ class Values:
                 if out:
                     return out
         return [(f, env, e)]
+
+    def _live_returns(self, call: ast.AST, t: FuncInfo) -> List[ast.AST]:
+        """values of the `return`s of helper t that can be reached from this call site (arms ruled out by the literal flags the call
+        passes were never built into the caller's flow graph)"""
+        rs = [r for r in _own_nodes(t.node) if isinstance(r, ast.Return) and r.value is not None]
+        live = self.an.live_returns.get(id(call))
+        if live:
+            kept = [r for r in rs if id(r) in live]
+            if kept:
+                rs = kept
+        return [r.value for r in rs]
 
     def leaves_at(self, node, e: ast.AST):
         """leaves(...) of an expression evaluated at a CFG step, honouring the return-value assumptions the step was built under"""
@@ -376,7 +387,7 @@ class Values:
         t = self.an.spliced_at.get(id(call))
         if t is None:
             return None
-        rets = [r.value for r in _own_nodes(t.node) if isinstance(r, ast.Return) and r.value is not None]
+        rets = self._live_returns(call, t)
         names = set()
         for r in rets:
             if not (isinstance(r, ast.Tuple) and idx < len(r.elts) and isinstance(r.elts[idx], ast.Name)):
